@@ -21,7 +21,7 @@ for h, tier in [("k_res_valid_i32_n4_o0_m0_p1_RR", "quick"), ("k_res_valid_i32_n
         functions=["decode::read_residuals", "decode::read_residuals::read_block", "stream::ResidualPartitionHeader::from_reader"],
         contract=RES_CONTRACT, timeout=300)
 for h, tier in [("k_res_total_i32_n1", "quick"), ("k_res_total_i32_n2", "quick"), ("k_res_total_i64_n2", "thorough"), ("k_res_total_i32_n3", "thorough")]:
-    add("K-" + h[2:], ["C04", "C05"], D + h, tier=tier, bound="<= 3 residuals, predictor order <= 3; every field value, every read fault",
+    add("K-" + h[2:], ["C04", "C05", "C13"], D + h, tier=tier, bound="<= 3 residuals, predictor order <= 3; every field value, every read fault",
         functions=["decode::read_residuals", "decode::read_residuals::read_block"],
         contract="decode::read_residuals: for every field sequence and read fault: no panic; read fault => Err; coding method 2/3 => Err; "
                  "partition order with block % 2^po != 0 or (block >> po) <= order => Err", timeout=900)
@@ -51,7 +51,7 @@ for h, tier in [("k_sub_mod_fixed2", "quick"), ("k_sub_mod_fixed3_w", "quick"), 
         stubs=["decode::read_residuals (contract discharged by K-res_valid_* / K-res_total_*)"], timeout=900)
 
 for h in ["k_sub_total_const_verbatim", "k_sub_total_reserved", "k_sub_total_fixed", "k_sub_total_lpc", "k_sub_total_lpc_wide", "k_sub_total_fixed_wide"]:
-    add("K-" + h[2:], ["C04", "C05"], D + h, tier="quick" if "wide" not in h else "thorough", bound="block of 3 samples; every header/field value, every read fault",
+    add("K-" + h[2:], ["C04", "C05", "C13"], D + h, tier="quick" if "wide" not in h else "thorough", bound="block of 3 samples; every header/field value, every read fault",
         functions=["decode::read_subframe", "decode::read_fixed_subframe", "decode::read_lpc_subframe", "stream::SubframeHeader::from_reader", "stream::SubframeHeaderType::from_reader"],
         contract="decode::read_subframe: for every field sequence and read fault: no panic; read fault => Err; pad bit 1, reserved type code, predictor order > block => Err",
         stubs=["decode::read_residuals (any result; contract discharged by K-res_total_*)"], timeout=600)
@@ -209,7 +209,7 @@ add("K-byte_order_swap", ["C07", "C08"], B + "k_byte_order_swap", bound="6-byte 
 
 add("K-counter", ["C09", "C13", "C14"], "verif_k::k_counter_counts_accepted_bytes", domain="full", functions=["Counter::write", "Counter::read"],
     contract="Counter: count advances by exactly the bytes the inner stream accepted / delivered (short writes!), unchanged on error", timeout=100)
-add("K-crc_rw_fold", ["C02", "C05", "C16"], "crc::verif_k::k_crc_reader_writer_fold", bound="buffers of <= 3 bytes; all contents, short reads/writes, failures",
+add("K-crc_rw_fold", ["C02", "C05", "C16", "C13"], "crc::verif_k::k_crc_reader_writer_fold", bound="buffers of <= 3 bytes; all contents, short reads/writes, failures",
     functions=["crc::CrcReader::read", "crc::CrcWriter::write", "crc::CrcReader::into_checksum", "crc::CrcWriter::into_checksum"],
     contract="CRC reader/writer fold Checksum::update over exactly the bytes transferred; failed transfers leave the checksum unchanged", timeout=200)
 
@@ -374,3 +374,35 @@ P("C19", "model_checking",
   "encode_subframe never returns a subframe larger than the VERBATIM one (8 + wasted + n x effective bits), for every outcome of the candidate encoders (sizes from a boundary set, failures "
   "symbolic) incl. non-multiple-of-8 depths; all-zero input costs 8 + bps bits.",
   BASE_NOTE, ["accuracy of the float estimates (affects how much smaller, never the bound)", "frame overhead (encode_frame out of reach; header <= 16 bytes by K-hdr_build_vs_rfc)", "constant non-zero blocks through encode_fixed_subframe"])
+
+add("K-encoder_new_validation", ["C15", "C14"], E + "k_encoder_new_validation", tier="thorough", domain="full",
+    functions=["encode::Encoder::new"],
+    contract="Encoder::new: Ok <=> rate < 2^20, 1 <= channels <= 8, declared total < 2^36; Ok => provisional STREAMINFO carries exactly the parameters, block size min == max == option, "
+             "frame sizes and MD5 unknown, counters zero, Rice2 iff bps > 16; never panics",
+    stubs=["metadata::write_blocks (accepts the block list)"], timeout=2400)
+
+
+for h in ["k_struct_res_reject_b4_o2_p1", "k_struct_res_reject_b16_o4_p2", "k_struct_res_reject_b6_o0_p2", "k_struct_res_reject_b2_o0_p2"]:
+    add("K-" + h[2:], ["C17", "C05"], S + h, tier="quick", bound="four concrete illegal (block, order, partition order) layouts",
+        functions=["stream::Residuals::from_reader", "stream::Residuals::from_reader::read_partitions"],
+        contract="Residuals::from_reader => Err(InvalidPartitionOrder) when the block is not divisible by 2^po or block >> po <= predictor order (the decoder's rule)", timeout=400)
+add("K-struct_write_fixed1", ["C17", "C02"], S + "k_struct_write_fixed1", tier="thorough", bound="FIXED order 1, 3 samples, one Rice partition; all values",
+    functions=["stream::write_subframe", "stream::Residuals::to_writer", "stream::ResidualPartition::to_writer"],
+    contract="write_subframe(structure) emits field for field the RFC 9639 coding of the structure's content", timeout=600)
+add("K-sample_reader_buffered_read", ["C07"], D + "k_sample_reader_buffered_read", bound="3 buffered samples, requests of 1..4",
+    functions=["decode::FlacSampleReader::read"],
+    contract="FlacSampleReader::read with k > 0 buffered samples returns min(len, k) of them, in order, and removes exactly those; never end-of-stream while samples are buffered",
+    stubs=["decode::Decoder::read_frame (reports end of stream)"], timeout=600)
+
+
+vadd("V-part-encoder-filter", ["C01", "C02"],
+     [{"kind": "file", "path": "lemmas.rs"},
+      {"kind": "fn", "file": "src/encode.rs", "container": r"fn write_residuals<W: BitWrite>\(", "fn": "best_partitions", "anchor_only": True,
+       "expect": [".rchunks(block_size / partition_count)", ".rev()", ".filter(|p| p.len() == partition_count)",
+                  "(0..=block_size.trailing_zeros().min(options.max_partition_order))"]}],
+     ["l_part_encoder_filter", "l_part_total"],
+     "L-PART applied to the encoder's candidate filter (model-level with a syntactic anchor): best_partitions cuts the residuals from the end into chunks of block/2^po, only for po <= trailing_zeros(block) "
+     "(so the block divides), and keeps a candidate iff it has exactly 2^po chunks; by the lemma that holds iff order < block/2^po, i.e. iff the layout is the RFC's; "
+     "the four source fragments the lemma was written from must still be present, otherwise the obligation is undecided",
+     ["encode::write_residuals::best_partitions (text anchor)"], domain="bounded", bound="spec-level lemma; link to the code is textual (anchor) plus K-write_res_short_*",
+     assumes=["std slice::rchunks yields ceil(len / size) chunks with the short one first in reverse order (std, not verified)"])
